@@ -1129,6 +1129,21 @@ func cmdQuery(args []string) error {
 				}
 			}
 		}
+		// extracted IDs that begin or end with white space (/u<joe >, /u< zed>): HAVING compares them as they are
+		spaceScenario := *mode == "having" && sc%4 == 2
+		if spaceScenario {
+			for _, x := range [][2]string{{"joe ", "joe"}, {"joe", " zed"}, {" zed", "joe "}, {"joe", "joe "}, {"a", "joe"}} {
+				sn, e1 := node.NewNodeFromStrings("/u", x[0])
+				on, e2 := node.NewNodeFromStrings("/u", x[1])
+				if e1 != nil || e2 != nil {
+					continue
+				}
+				if t, err := triple.New(sn, mustImm("p"), triple.NewNodeObject(on)); err == nil && !seen[t.String()] {
+					seen[t.String()] = true
+					g.define(t)
+				}
+			}
+		}
 		// a grouping value that is the empty text (the ID of the predicate ""@[], of the node /u<>): a group like any other
 		emptyScenario := strings.Contains(*mode, "group") && !sepScenario && r.chance(1, 6)
 		if emptyScenario {
@@ -1181,6 +1196,23 @@ func cmdQuery(args []string) error {
 				}
 			}
 			g.doMut(true, names[gi], ids)
+			// the content of a graph is also what removals left of it: a third of the scenarios remove some of the
+			// triples again (and put a few back)
+			if sc%3 == 1 && len(ids) > 1 {
+				var gone []int
+				for _, id := range ids {
+					if r.chance(1, 3) {
+						gone = append(gone, id)
+					}
+				}
+				if len(gone) > 0 {
+					g.doMut(false, names[gi], gone)
+					if r.chance(1, 2) {
+						g.doMut(true, names[gi], gone[:1])
+					}
+					q.hist["graphs-after-removals"]++
+				}
+			}
 		}
 		for k := 0; k < *per; k++ {
 			nfrom := 1 + r.intn(ng)
@@ -1194,6 +1226,12 @@ func cmdQuery(args []string) error {
 					strings.Join(names[:nfrom], ", "), []string{"?sid, ?oid", "?oid, ?sid"}[k])
 				q.intent = ""
 				q.hist["string-keys-with-separator"]++
+			}
+			if spaceScenario && k < 5 {
+				cond := []string{`?k = "joe"^^type:text`, `?k = "joe "^^type:text`, `?k < "a"^^type:text`, `?k > ?j`, `not (?j = " zed"^^type:text) or (?k = ?j)`}[k]
+				text = fmt.Sprintf("select ?s, ?k, ?j from %s where { ?s id ?k \"p\"@[] ?o id ?j } having %s;", strings.Join(names[:ng], ", "), cond)
+				q.intent = ""
+				q.hist["having-on-ids-with-white-space"]++
 			}
 			if emptyScenario && k < 3 {
 				col := []string{"?p id ?k ?o", "?p ?o id ?k", "id ?k ?p ?o"}[k]
